@@ -6,7 +6,12 @@
   its parent (the first one directly below the scope it starts from), names exactly the nodes of the new
   sub-configuration, and that sub-configuration is admissible (`ConfOK`): it ends in states without `initial`,
   every state entered through `initial` has one child or all children.  The loop never runs out of the fuel it is
-  given.
+  given (`enterDest_no_oof`; for an EMPTY destination this needs the scope's own `initial` to be repetition-free,
+  which holds for the machine's scope and every scope reached from it by `with self(k)` — `ScopeOK_root`,
+  `Scope.walk_OK`, `enterRoot_no_oof`).
+
+  Proof: helper lemmas in namespace `TM.Enter`; the queue loop `initLoop` is handled by the invariant `LInv`
+  (`LInv_step`, `initLoop_inv`) and the fuel measure `queueCost` (`initLoop_ok`).
 -/
 import Model.Spec.C02
 
@@ -1177,7 +1182,7 @@ theorem enterInitial_ok (sc : Scope) (hwf : sc.states.WF = true) (hnd : sc.initi
         intro e; subst e
         have := (lookupAll_some hl).1
         simp at this
-        exact hne this.symm
+        exact hne this
       obtain ⟨r, hr⟩ := initLoop_ok (sc.states.size + 1) [([], sc.pre, sts)] .nil []
         (by intro j hj; simp only [List.mem_singleton] at hj; subst hj; exact DefOK_of_lookupAll hwf hl)
         (by
@@ -1274,10 +1279,7 @@ theorem enterDest_cons_step {sc sc' : Scope} {k : Nat} {d : SPath} {T' : Forest}
     intro hm
     obtain ⟨q, hq, he⟩ := (h.mem _).mp hm
     simp only at he
-    have : q = [] := by
-      have := congrArg List.length he
-      simp at this
-      exact List.eq_nil_of_length_eq_zero (by omega)
+    have : q = [] := List.self_eq_append_right.mp he
     exact nodes_ne_nil hq this
   · -- membership
     intro p
@@ -1401,5 +1403,19 @@ theorem enterDest_spec (sc : Scope) (hwf : sc.states.WF = true) (d0 : Nat) (dr :
     obtain ⟨hs, hok⟩ := enterDest_spec_aux dr sc' (ScopeOK_enter hwf he) T' ents' h1
     have := enterDest_cons_step hwf he hs hok
     exact ⟨T', rfl, this.conf, this.nodup, this.mem, this.pf, this.reg⟩
+
+/-- the machine's own scope (no owner, so no `initial`) fits -/
+theorem ScopeOK_root (cfg : NCfg) (hwf : cfg.states.WF = true) : ScopeOK cfg.root :=
+  ⟨hwf, by simp [Scope.initial, NCfg.root], by simp [Scope.initial, NCfg.root],
+    Or.inl (by simp [Scope.initial, NCfg.root])⟩
+
+/-- `enterRoot` never runs out of fuel from a fitting scope -/
+theorem enterRoot_no_oof (sc : Scope) (hsc : ScopeOK sc) (rt dst : SPath) : enterRoot sc rt dst ≠ .oof := by
+  rw [enterRoot_eq]
+  cases h : sc.walk rt with
+  | none => simp
+  | some sc' =>
+    have := Scope.walk_OK h hsc
+    exact enterDest_no_oof sc' this.wf dst (fun _ => this.nodup)
 
 end TM
